@@ -85,6 +85,16 @@ class DevirtInliner(Inliner):
                 if e.values:
                     e.values[0] = walk(e.values[0])
                 return e
+            if isinstance(e, ast.NamedExpr) and isinstance(e.target, ast.Name):
+                # `if (x := f()) and ...:`  ->  `x = f()` in front (evaluated unconditionally at this position)
+                e.value = walk(e.value)
+                st = ast.Assign(targets=[ast.Name(id=e.target.id, ctx=ast.Store())], value=e.value)
+                ast.copy_location(st, e)
+                ast.copy_location(st.targets[0], e)
+                pre.append(st)
+                new = ast.Name(id=e.target.id, ctx=ast.Load())
+                ast.copy_location(new, e)
+                return new
             if isinstance(e, ast.Call):
                 if isinstance(e.func, ast.Attribute):
                     e.func.value = walk(e.func.value)
@@ -156,6 +166,19 @@ def dview(repo: Repo, fi: FuncInfo, recv: ClassInfo | None = None, allow: Callab
     if key not in cache:
         cache[key] = DevirtInliner(repo, types_of(repo), recv, allow, max_depth).view(fi)
     return cache[key]
+
+
+def family(repo: Repo, cls: ClassInfo, keep_out: tuple[str, ...] = ()) -> Callable[[FuncInfo, FuncInfo], bool]:
+    """Inlining policy: helpers of the class hierarchy of `cls` and module-level functions (a helper may be moved out of the
+    class); methods of *other* classes stay calls - they are the vocabulary the rules are written in."""
+    mro = {c.fq for c in repo.mro(cls)}
+
+    def allow(caller: FuncInfo, callee: FuncInfo) -> bool:
+        if callee.cls is None:
+            return callee.module.name not in keep_out
+        return callee.cls.fq in mro
+
+    return allow
 
 
 def origin(view: FuncInfo, node: ast.AST) -> tuple[FuncInfo, ast.AST]:
